@@ -5,6 +5,7 @@
   refinement theorems of C05).
 -/
 import HSModel.Proofs.StepLemmas
+import HSModel.Proofs.RefineAll
 namespace HS.C03
 open Abs
 variable (cfg : Config) (o : Oracle)
@@ -101,5 +102,24 @@ theorem rebind_after_delete (a : Abs) (p c c' : Str) (hp : checkStringOk p = tru
 /-- non-vacuity: a state with a bound pid exists and the rejection fires -/
 example : (Abs.tag { Abs.empty with bind := FMap.empty.set "p".toList "c".toList } "p".toList "d".toList).1
     = .error .pidRefsAlreadyExists := by decide
+
+
+/-- **concrete**: on a store where `p` has a pid reference, the concrete
+    `tag_object(p, c')` is rejected with one of the two documented errors and the
+    store it leaves holds the same abstract state (every binding, object and
+    document as before, indexes exact) -/
+theorem concrete_bound_rejected (st : Store) (log : List Eff) (a : Abs) (hs : Sim o st a) (ho : GoodOracle o)
+    (p c c' : Str) (hp : checkStringOk p = true) (hc' : checkStringOk c' = true) (hcp : Plain c')
+    (hb : st.pidRefs.get (o.hId p) = some c) :
+    let r := (tagObject cfg o (.str p) (.str c')).run (calm st log)
+    (r.1 = .error .hashStoreRefsAlreadyExists ∨ r.1 = .error .pidRefsAlreadyExists) ∧ Sim o r.2.st a := by
+  intro r
+  obtain ⟨w', hrun, _, _, hs'⟩ := refines_step cfg o (.tagObject (.str p) (.str c')) st log a hs ho hcp
+  have hb' : a.bind.get p = some c := by rw [hs.rel.bind]; exact hb
+  obtain ⟨h1, h2⟩ := tagObject_bound cfg o a p c c' hp hc' hb'
+  have hr : r = ((step cfg o a (.tagObject (.str p) (.str c'))).1, w') := hrun
+  rw [hr]
+  rw [h1] at hs'
+  exact ⟨h2, hs'⟩
 
 end HS.C03
